@@ -8,7 +8,7 @@ RULE = ("cases run through the real Balancer.rebalance; oracle = multisets of ca
         "components (RDKit, maps cleared through the API) of each side: input side must be a "
         "sub-multiset of the output side and input_reaction must equal the de-mapped raw input; "
         "distinct non-trivial = distinct inputs where something was added or whose text contains a "
-        "marker substring ('.[H]', '.[O', '.OO'); every fourth case is followed by a second run in which the returned "
+        "marker substring ('.[H]', '.[O', '.OO'); the same kinds of reaction with isotope labels on atoms of the given molecules; every fourth case is followed by a second run in which the returned "
         "rows (dicts carrying the tool's own columns) are edited and fed back")
 ASSUMPTIONS = [
     "RDKit canonical SMILES of a connected component identifies 'the same molecule'",
@@ -21,6 +21,39 @@ CFGS = [
     {"batch_size": 3, "threshold": 0, "n_jobs": 1},
     {"batch_size": None, "threshold": 0.5, "n_jobs": 1},
 ]
+
+
+def isotope_labelled(rng, pairs):
+    """the same reactions with isotope labels (13C, 14C, 18O, 15N, 2H-bearing bracket atoms) written on atoms of one
+    or more given molecules: a label is part of the molecule and must come back on it"""
+    from rdkit import Chem
+    iso = {6: [13, 14], 8: [18, 17], 7: [15], 16: [34]}
+    out = []
+    for t, rx in pairs:
+        sp = oracle.split_rsmi(rx)
+        if sp is None:
+            continue
+        sides = []
+        done = 0
+        for side in sp:
+            mols = []
+            for m in side.split("."):
+                mol = oracle.parse(m)
+                if mol is None or "1." in m or rng.random() < 0.4:
+                    mols.append(m)
+                    continue
+                cand = [a for a in mol.GetAtoms() if a.GetAtomicNum() in iso and a.GetIsotope() == 0]
+                if not cand:
+                    mols.append(m)
+                    continue
+                for a in rng.sample(cand, min(len(cand), rng.choice([1, 1, 2]))):
+                    a.SetIsotope(rng.choice(iso[a.GetAtomicNum()]))
+                mols.append(Chem.MolToSmiles(mol, canonical=bool(rng.randrange(2))))
+                done += 1
+            sides.append(".".join(mols))
+        if done:
+            out.append((t + "|iso", ">>".join(sides)))
+    return out
 
 
 def plan(tier, seed):
@@ -38,6 +71,8 @@ def plan(tier, seed):
     cases += rowlib.gen_cases(G.spectator_laden(rng, 24 if q else 200), 8, CFGS, "spect")
     cases += rowlib.gen_cases(G.dative(rng, 40 if q else 400), 8, CFGS, "dative")
     cases += rowlib.gen_cases(G.completion_prefix_collisions(rng, 48 if q else 400), 8, CFGS, "prefixcoll")
+    lab = G.deletions(rng, 40 if q else 400) + G.redox_family(rng, 20 if q else 200) + G.ionic_balanced(rng, 10 if q else 100)
+    cases += rowlib.gen_cases(isotope_labelled(rng, lab), 8, CFGS, "isotope")
     # large batches: many completed rows, rows rewritten by reagent templates at positions >= 10 (>= 100)
     big = G.redox_family(rng, 60 if q else 600) + G.deletions(rng, 40 if q else 400) + G.additions(rng, 20 if q else 200)
     rng.shuffle(big)
